@@ -3,7 +3,7 @@
    Print Assumptions.  K is the entry key (graph.NodeInfo for graphs), keqb its decidable equality;
    [build_graph K keqb None ss] is the model of newGraph (graph.go:326) before nodes with zero
    numbers are hidden, [new_graph] the graph that is reported; the specification sums are in S_Graph. *)
-From PV Require Import M_Graph S_Graph M_Report L_Graph L_Report.
+From PV Require Import M_Graph S_Graph M_Report L_Graph L_Report L_Tree.
 Open Scope Z_scope.
 
 Definition key_eq (K : Type) (keqb : K -> K -> bool) : Prop := forall a b, keqb a b = true <-> a = b.
@@ -43,6 +43,28 @@ Theorem reported_edges_eq_spec : forall K keqb, key_eq K keqb -> forall kept dn 
   e_wdiv e = wrap_i64 (edge_spec K keqb true kept ss (e_src e) (e_dst e)).
 Proof. exact graph_edges_eq_spec_lemma. Qed.
 Print Assumptions reported_edges_eq_spec.
+
+
+(* call trees (call_tree with dot / callgrind): a node is a path from the root; its cum sums the
+   samples whose stack starts with the path, its flat those whose stack IS the path, and the edge
+   into a node sums the samples that pass through it (p, q both prefixes, q one frame longer) *)
+Theorem tree_cum_eq_spec : forall K keqb, key_eq K keqb -> forall (div : bool) ss path, path <> [] ->
+  (if div then nv_cumdiv else nv_cum) (nget (list K) (list_eqb K keqb) path (g_nodes (build_tree K keqb ss))) =
+  wrap_i64 (tree_cum_spec K keqb div ss path).
+Proof. exact tree_cum_eq_spec_lemma. Qed.
+Print Assumptions tree_cum_eq_spec.
+
+Theorem tree_flat_eq_spec : forall K keqb, key_eq K keqb -> forall (div : bool) ss path, path <> [] ->
+  (if div then nv_flatdiv else nv_flat) (nget (list K) (list_eqb K keqb) path (g_nodes (build_tree K keqb ss))) =
+  wrap_i64 (tree_flat_spec K keqb div ss path).
+Proof. exact tree_flat_eq_spec_lemma. Qed.
+Print Assumptions tree_flat_eq_spec.
+
+Theorem tree_edge_eq_spec : forall K keqb, key_eq K keqb -> forall (div : bool) ss p q,
+  (if div then @snd Z Z else @fst Z Z) (ew (list K) (list_eqb K keqb) p q (g_edges (build_tree K keqb ss))) =
+  wrap_i64 (tree_edge_spec K keqb div ss p q).
+Proof. exact tree_edge_eq_spec_lemma. Qed.
+Print Assumptions tree_edge_eq_spec.
 
 (* the instance the report uses: NodeInfo with field-wise equality *)
 Theorem node_info_key_eq : key_eq node_info ni_eqb.
